@@ -4,13 +4,21 @@ Lean side: `agg_face_eq` (Props/C17.lean) — for every reduction and every part
 `PartsOK`, the scatter/gather loop equals the per-face reduction.  Tie: (a) `PartsOK` is evaluated
 by the Lean driver on the partitions the real `get_face_node_partitions` returns; (b) the model's
 loop, run by the driver with exact integer reductions (sum/prod/min/max/all/any), must equal the
-implementation; (c) all ten reductions are compared with the per-element NumPy reduction (the
-reductions themselves are parameters of the model).
+implementation; (c) THE VERDICT on the values of all ten reductions comes from Lean: every input
+value and every output is an exact rational (`fractions.Fraction` of the float64/int/bool), the
+driver computes the exact reduction (`Aggregate.core`, over ℚ) of exactly the element's corner values
+and decides `accepts` (|out − exact| ≤ a rounding allowance derived from the row length and Σ|x|;
+none for min/max/all/any; std through its square).  NumPy applied by the harness to the element's
+own nodes is only a cross-check of the MODEL of the reductions (it must be accepted by the same judge).
 """
 
 from __future__ import annotations
 
 import numpy as np
+
+import ast
+import math
+from fractions import Fraction
 
 from . import common, meshes
 from .common import INT_FILL, enc_ints, enc_pairs, enc_rows
@@ -19,6 +27,36 @@ AGGS = ["mean", "max", "min", "prod", "sum", "std", "var", "median", "all", "any
 EXACT = {"sum": 0, "prod": 1, "min": 2, "max": 3, "all": 4, "any": 5}
 NP = dict(mean=np.mean, max=np.max, min=np.min, prod=np.prod, sum=np.sum, std=np.std, var=np.var,
           median=np.median, all=np.all, any=np.any)
+
+
+RED = {a: i for i, a in enumerate(["mean", "max", "min", "prod", "sum", "std", "var", "median", "all", "any"])}
+
+
+def enc_rat(x):
+    """exact rational `num den` of a float64/int/bool; `0 0` for nan/inf"""
+    if isinstance(x, (bool, np.bool_)):
+        return "1 1" if x else "0 1"
+    if isinstance(x, (int, np.integer)):
+        return f"{int(x)} 1"
+    x = float(x)
+    if not math.isfinite(x):
+        return "0 0"
+    f = Fraction(x)
+    return f"{f.numerator} {f.denominator}"
+
+
+def enc_rats(l):
+    l = list(l)
+    return " ".join([str(len(l))] + [enc_rat(x) for x in l])
+
+
+def dec_orats(tok):
+    n = tok.int()
+    out = []
+    for _ in range(n):
+        a, b = tok.int(), tok.int()
+        out.append(None if b == 0 else Fraction(a, b))
+    return out
 
 
 def dec_opt(s):
@@ -33,9 +71,30 @@ def make_data(rng, n, lead, dtype):
         a = np.array([rng.randint(-3, 3) for _ in range(size)], dtype=np.int64)
     elif dtype == "bool":
         a = np.array([rng.random() < 0.7 for _ in range(size)], dtype=bool)
+    elif dtype == "wild":
+        # arbitrary mantissas over several decades (sums, products and squares all round), with zeros
+        a = np.array([0.0 if rng.random() < 0.1 else rng.uniform(-1, 1) * 10.0 ** rng.randint(-3, 3) for _ in range(size)],
+                     dtype=np.float64)
     else:
         a = np.array([rng.choice([-2.5, -1.0, 0.0, 0.5, 1.25, 3.0, 7.75]) for _ in range(size)], dtype=np.float64)
     return a.reshape(shape)
+
+
+def lean_judge(ctx, kind, agg, ddof, struct, rows_data, rows_out):
+    """ask Lean for the verdict on every leading slice; returns (all_ok, loop_same, first_bad, model_values)"""
+    ok, same, bad, vals = True, True, None, []
+    for li, (drow, orow) in enumerate(zip(rows_data, rows_out)):
+        r = common.Tok(ctx.driver.ask(kind, RED[agg], ddof, struct, enc_rats(drow), enc_rats(orow)))
+        v = r.int()
+        if kind == "C17.qface":
+            same = same and r.int() == 1
+        fb = r.int()
+        vals.append(dec_orats(r))
+        if v != 1:
+            ok = False
+            if bad is None:
+                bad = [li, fb]
+    return ok, same, bad, vals
 
 
 def judge(ctx, m, tag, subset=None):
@@ -62,26 +121,49 @@ def judge(ctx, m, tag, subset=None):
     if d.ask("C17.sorts", enc_ints(N), enc_ints(parts["perm"])) != "1":
         ctx.mismatch("C17/argsort-sorts", inp0, parts, None)
 
+    # hypotheses of the end-to-end theorems (agg_face_real_corners, agg_edge_real_endpoints), decided by Lean on the
+    # REAL tables of the grid under test; they are C02's subject, so a failure is recorded, not judged here
+    real_t = [[int(v) for v in r] for r in g.face_node_connectivity.values]
+    hy = d.ask("C17.hyps", m.n_node, len(real_t[0]), enc_rows(real_t), enc_pairs(E)).split()
+    ctx.hit("hyp:StdForm=" + hy[0])
+    ctx.hit("hyp:EdgesSound=" + hy[1])
+    if hy != ["1", "1"]:
+        ctx.notes.append(f"C17 hypotheses not met by the real tables of {m.describe()}: StdForm={hy[0]} EdgesSound={hy[1]} (C02's subject)")
+    if tuple(tuple(r) for r in real_t) != tuple(tuple(r) for r in t):
+        ctx.mismatch("C17/table-of-grid", inp0, real_t, None)
+
     combos = []
     for agg in AGGS:
         for dest in ("face", "edge"):
             combos.append((agg, dest))
     rng.shuffle(combos)
     for agg, dest in combos[: ctx.n(6, 20)]:
-        dtype = rng.choice(["int", "float", "bool"])
+        dtype = rng.choice(["int", "float", "bool", "wild"])
         lead = [rng.randint(1, 3) for _ in range(rng.choice([0, 0, 1, 2]))]
         data = make_data(rng, m.n_node, lead, dtype)
         dims = [f"d{i}" for i in range(len(lead))] + ["n_node"]
-        uxda = ux.UxDataArray(data, dims=dims, uxgrid=g, name="v")
-        inp = dict(inp0, agg=agg, destination=dest, dtype=dtype, lead=lead, data=data.tolist())
-        key = (tag, t, agg, dest, dtype, tuple(lead), data.tobytes().hex()[:64])
+        # both branches of _node_to_{face,edge}_aggregation: NumPy-backed and dask-backed (chunked) sources
+        backing = "dask" if rng.random() < 0.25 else "numpy"
+        if backing == "dask":
+            import dask.array as da
+
+            src = da.from_array(data, chunks=tuple(rng.randint(1, max(1, n)) for n in data.shape))
+        else:
+            src = data
+        uxda = ux.UxDataArray(src, dims=dims, uxgrid=g, name="v")
+        ctx.hit("backing=" + backing)
+        # the keyword arguments are forwarded to the NumPy reduction: std/var with the ddof the caller passes
+        ddof = 1 if agg in ("std", "var") and rng.random() < 0.3 else 0
+        kw = dict(ddof=1) if ddof else {}
+        inp = dict(inp0, agg=agg, destination=dest, dtype=dtype, lead=lead, data=data.tolist(), kwargs=kw, backing=backing)
+        key = (tag, t, agg, dest, dtype, ddof, tuple(lead), data.tobytes().hex()[:64])
         ctx.case(key, nontrivial=len(set(N)) > 1 or dest == "edge", sample=inp if m.n_face <= 2 and not lead else None)
         ctx.hit(f"{agg}->{dest}")
         ctx.hit(f"dtype={dtype}")
         ctx.hit(f"rank={len(lead)+1}")
         ctx.hit("mixed-sizes" if len(set(N)) > 1 else "uniform-sizes")
         try:
-            res = getattr(uxda, f"topological_{agg}")(destination=dest)
+            res = getattr(uxda, f"topological_{agg}")(destination=dest, **kw)
         except Exception as e:
             ctx.fail(f"C17/raises/{agg}->{dest}/{type(e).__name__}", f"topological_{agg}({dest}) raises {type(e).__name__}: {e}", inp)
             continue
@@ -94,14 +176,39 @@ def judge(ctx, m, tag, subset=None):
             continue
         if not isinstance(res, ux.UxDataArray) or res.uxgrid is not g:
             ctx.fail(f"C17/grid/{dest}", "result is not a UxDataArray on the same grid", inp, obs, None, ["same_grid"])
-        # (c) per-element reference with NumPy's own reduction on exactly the element's nodes
+        # (c) the verdict: Lean reduces exactly the element's corner values over ℚ and decides whether each
+        # output is within the rounding allowance (every leading slice)
         elems = m.faces if dest == "face" else [list(e) for e in E]
-        ref = np.stack([NP[agg](data[..., el], axis=-1) for el in elems], axis=-1).astype(float)
-        if not np.allclose(out.astype(float), ref, rtol=1e-12, atol=1e-12, equal_nan=True):
-            bad = np.argwhere(~np.isclose(out.astype(float), ref, rtol=1e-12, atol=1e-12, equal_nan=True))
-            ctx.fail(f"C17/value/{dest}", f"topological_{agg}({dest}) differs from the reduction over the element's own nodes at {bad[:3].tolist()}",
-                     inp, obs, dict(reference=ref.tolist()), ["agg_face_eq" if dest == "face" else "agg_edge_eq"])
+        flatd = data.reshape(-1, m.n_node)
+        flato = out.reshape(-1, out.shape[-1])
+        if dest == "face":
+            ok, same, bad, vals = lean_judge(ctx, "C17.qface", agg, ddof, enc_rows(t) + " " + enc_parts, flatd, flato)
+            if not same:
+                ctx.mismatch("C17/loop-rows-vs-corner-rows", inp, None, None)
+        else:
+            ok, same, bad, vals = lean_judge(ctx, "C17.qedge", agg, ddof, enc_pairs(E), flatd, flato)
+        ctx.hit("lean-judged:" + agg)
+        if ddof:
+            ctx.hit("ddof=1")
+        if not ok:
+            li, fb = bad
+            mv = vals[li][fb] if 0 <= fb < len(vals[li]) else None
+            ctx.fail(f"C17/value/{dest}", f"topological_{agg}({dest}{', ddof=1' if ddof else ''}) is not the reduction over the element's own nodes: "
+                     f"leading slice {li}, element {fb}: got {flato[li][fb] if 0 <= fb < len(flato[li]) else None}, exact "
+                     f"{'square ' if agg == 'std' else ''}value {None if mv is None else float(mv)} (Lean accepts=false)",
+                     inp, obs, dict(exact=[[None if v is None else float(v) for v in vs] for vs in vals]),
+                     ["agg_face_eq" if dest == "face" else "agg_edge_eq", "accepts"])
             continue
+        # cross-check of the MODEL of the reductions: NumPy's own reduction on exactly the element's nodes must
+        # be accepted by the same judge
+        ref = np.stack([NP[agg](data[..., el], axis=-1, **kw) for el in elems], axis=-1)
+        flatr = ref.reshape(-1, ref.shape[-1])
+        if dest == "face":
+            okr, _, _, _ = lean_judge(ctx, "C17.qref", agg, ddof, enc_rows(t), flatd, flatr)
+        else:
+            okr, _, _, _ = lean_judge(ctx, "C17.qedge", agg, ddof, enc_pairs(E), flatd, flatr)
+        if not okr:
+            ctx.mismatch("C17/reduction-model-vs-numpy", inp, ref.tolist(), [[None if v is None else float(v) for v in vs] for vs in vals])
         # (b) the Lean model's loop with an exact integer reduction
         if agg in EXACT and dtype in ("int", "bool") and (agg != "prod" or True):
             flat = data.reshape(-1, m.n_node)
@@ -135,7 +242,7 @@ def judge_subset(ctx, ux, g, m, inp0, idx=None):
         if rng.random() < 0.5:
             idx = sorted(idx)
     lead = [rng.randint(1, 2) for _ in range(rng.choice([0, 1]))]
-    data = make_data(rng, m.n_node, lead, "float")
+    data = make_data(rng, m.n_node, lead, rng.choice(["float", "wild"]))
     dims = [f"d{i}" for i in range(len(lead))] + ["n_node"]
     uxda = ux.UxDataArray(data, dims=dims, uxgrid=g, name="v")
     inp = dict(inp0, subset_faces=[int(i) for i in idx], lead=lead, data=data.tolist())
@@ -148,6 +255,24 @@ def judge_subset(ctx, ux, g, m, inp0, idx=None):
         ctx.hit("subset:isel-raised:" + type(e).__name__)
         return
     faces = [[int(v) for v in r if v != INT_FILL] for r in conn]
+    # hypotheses of agg_subgrid_commutes on the REAL sub-grid (slicing is C09's subject: recorded, not judged):
+    # its table is the model's subTable of the parent table under a renumbering with ren x = FILL ↔ x = FILL, and
+    # the sub-grid's node values are the parent's carried along the renumbering
+    par_t = m.rows()
+    ren, hyp = {}, conn.shape[0] == len(idx)
+    for i, f in enumerate(idx):
+        if not hyp or len(par_t[f]) != conn.shape[1]:
+            hyp = False
+            break
+        for a, b in zip(par_t[f], conn[i]):
+            if ren.setdefault(int(a), int(b)) != int(b) or ((a == INT_FILL) != (b == INT_FILL)):
+                hyp = False
+    if hyp:
+        renl = [ren.get(x, INT_FILL) for x in range(m.n_node)]
+        st = common.Tok(ctx.driver.ask("C17.subtable", enc_rows(par_t), enc_ints(idx), enc_ints(renl))).rows()
+        hyp = [list(r) for r in st] == [[int(v) for v in r] for r in conn] and all(
+            np.array_equal(vals[..., b], data[..., a], equal_nan=True) for a, b in ren.items() if a != INT_FILL)
+    ctx.hit("subset:hyps-of-agg_subgrid_commutes=" + ("1" if hyp else "0"))
     for agg in rng.sample(["mean", "max", "min", "sum", "median"], 2):
         ctx.case(("subset", m.rows(), tuple(idx), agg, data.tobytes().hex()[:48]), nontrivial=True)
         ctx.hit("subset:" + ("mixed" if len(sizes) > 1 else "uniform") + "-sizes")
@@ -157,14 +282,167 @@ def judge_subset(ctx, ux, g, m, inp0, idx=None):
             ctx.fail(f"C17/subset/raises/{agg}/{type(e).__name__}", f"topological_{agg} on a sub-grid raises {type(e).__name__}: {e}", inp)
             continue
         out = np.asarray(res.values, dtype=float)
-        ref = np.stack([NP[agg](vals[..., f], axis=-1) for f in faces], axis=-1).astype(float)
-        if out.shape != ref.shape or not np.allclose(out, ref, rtol=1e-12, atol=1e-12, equal_nan=True):
+        want_shape = tuple(vals.shape[:-1]) + (len(faces),)
+        sub_t = tuple(tuple(int(v) for v in r) for r in conn)
+        okl = out.shape == want_shape
+        mvals = None
+        if okl:
+            # verdict from Lean: exact reduction of the sub-grid's own corner values
+            okl, _, bad, mvals = lean_judge(ctx, "C17.qref", agg, 0, enc_rows(sub_t), vals.reshape(-1, vals.shape[-1]),
+                                            out.reshape(-1, out.shape[-1]))
+        ctx.hit("lean-judged:subset")
+        if not okl:
             ctx.fail("C17/subset/value/face", f"topological_{agg}(face) on the sub-grid isel(n_face={list(idx)}) differs from the reduction over each "
-                     "sub-grid face's own nodes", inp, dict(values=out.tolist(), subgrid_faces=faces), dict(reference=ref.tolist()), ["agg_face_eq"])
+                     "sub-grid face's own nodes (Lean accepts=false)", inp, dict(values=out.tolist(), subgrid_faces=faces),
+                     dict(exact=None if mvals is None else [[None if v is None else float(v) for v in vs] for vs in mvals]), ["agg_face_eq", "accepts"])
+            continue
+        ref = np.stack([NP[agg](vals[..., f], axis=-1) for f in faces], axis=-1).astype(float)
+        okr, _, _, _ = lean_judge(ctx, "C17.qref", agg, 0, enc_rows(sub_t), vals.reshape(-1, vals.shape[-1]), ref.reshape(-1, ref.shape[-1]))
+        if not okr:
+            ctx.mismatch("C17/reduction-model-vs-numpy", inp, ref.tolist(), None)
 
 
-DISPATCH = [("n_node", 0), ("n_edge", 1), ("n_face", 2)]
+DISPATCH = [("n_node", 0), ("n_edge", 1), ("n_face", 2), ("x", 3)]
 DESTS = [("node", 0), ("edge", 1), ("face", 2), (None, 3), ("cell", 4)]
+
+
+class _Shape(Exception):
+    """the source no longer has the shape the table extractor understands"""
+
+
+def source_tables(ux):
+    """Regenerate the model's tables FROM THE SOURCE of the tree under test (ast, nothing executed):
+    (1) the decision table of `_uxda_grid_aggregate` — for every (element centre, destination) the terminal
+        statement its if/elif chain reaches (return of the node→face / node→edge worker, or the exception raised);
+    (2) method → reduction: every `UxDataArray.topological_<m>` forwards to `_uxda_grid_aggregate(self, destination,
+        "<a>", **kwargs)` and `NUMPY_AGGREGATIONS["<a>"]` is `np.<f>`; the composition m ↦ f.
+    Raises _Shape when the code is not of that form any more (a correspondence failure, not a verdict)."""
+    import inspect
+
+    import uxarray.core.aggregation as A
+    import uxarray.core.dataarray as D
+
+    tree = ast.parse(inspect.getsource(A))
+    fn = next((n for n in tree.body if isinstance(n, ast.FunctionDef) and n.name == "_uxda_grid_aggregate"), None)
+    if fn is None:
+        raise _Shape("no _uxda_grid_aggregate")
+    an = [a.arg for a in fn.args.args]
+    if len(an) < 3:
+        raise _Shape("signature of _uxda_grid_aggregate")
+    uxda_n, dest_n = an[0], an[1]
+    PRED = {"_node_centered": "n_node", "_edge_centered": "n_edge", "_face_centered": "n_face"}
+
+    def val(node, env):
+        if isinstance(node, ast.Constant):
+            return node.value
+        if isinstance(node, ast.Name) and node.id == dest_n:
+            return env["dest"]
+        if (isinstance(node, ast.Call) and not node.args and not node.keywords and isinstance(node.func, ast.Attribute)
+                and isinstance(node.func.value, ast.Name) and node.func.value.id == uxda_n and node.func.attr in PRED):
+            return env["centre"] == PRED[node.func.attr]
+        if isinstance(node, ast.UnaryOp) and isinstance(node.op, ast.Not):
+            return not val(node.operand, env)
+        if isinstance(node, ast.BoolOp):
+            vs = [val(v, env) for v in node.values]
+            return all(vs) if isinstance(node.op, ast.And) else any(vs)
+        if isinstance(node, ast.Compare) and len(node.ops) == 1:
+            a, b, op = val(node.left, env), val(node.comparators[0], env), node.ops[0]
+            if isinstance(op, ast.Is):
+                return a is b
+            if isinstance(op, ast.IsNot):
+                return a is not b
+            if isinstance(op, ast.Eq):
+                return a == b
+            if isinstance(op, ast.NotEq):
+                return a != b
+            if isinstance(op, ast.In) and isinstance(node.comparators[0], (ast.List, ast.Tuple, ast.Set)):
+                return a in [val(e, env) for e in node.comparators[0].elts]
+        if isinstance(node, (ast.List, ast.Tuple)):
+            return [val(e, env) for e in node.elts]
+        raise _Shape("condition " + ast.dump(node)[:80])
+
+    def cname(node):
+        if isinstance(node, ast.Call):
+            node = node.func
+        if isinstance(node, ast.Name):
+            return node.id
+        if isinstance(node, ast.Attribute):
+            return node.attr
+        raise _Shape("callee " + ast.dump(node)[:80])
+
+    def walk(stmts, env):
+        for st in stmts:
+            if isinstance(st, ast.Expr) and isinstance(st.value, ast.Constant):
+                continue
+            if isinstance(st, ast.If):
+                r = walk(st.body if val(st.test, env) else st.orelse, env)
+                if r is not None:
+                    return r
+                continue
+            if isinstance(st, ast.Raise) and st.exc is not None:
+                return cname(st.exc)
+            if isinstance(st, ast.Return) and st.value is not None:
+                return {"_node_to_face_aggregation": "toFace", "_node_to_edge_aggregation": "toEdge"}.get(cname(st.value), "return:" + cname(st.value))
+            raise _Shape("statement " + type(st).__name__)
+        return None
+
+    table = {}
+    for dim, c in DISPATCH:
+        for dest, dc in DESTS:
+            table[(c, dc)] = walk(fn.body, dict(centre=dim, dest=dest)) or "fallthrough"
+
+    # NUMPY_AGGREGATIONS
+    npmap = None
+    for n in tree.body:
+        if isinstance(n, ast.Assign) and any(isinstance(t, ast.Name) and t.id == "NUMPY_AGGREGATIONS" for t in n.targets) and isinstance(n.value, ast.Dict):
+            npmap = {}
+            for k, v in zip(n.value.keys, n.value.values):
+                if not (isinstance(k, ast.Constant) and isinstance(v, ast.Attribute) and isinstance(v.value, ast.Name) and v.value.id == "np"):
+                    raise _Shape("NUMPY_AGGREGATIONS entry")
+                npmap[k.value] = v.attr
+    if npmap is None:
+        raise _Shape("no NUMPY_AGGREGATIONS dict")
+    dtree = ast.parse(inspect.getsource(D))
+    cls = next((n for n in dtree.body if isinstance(n, ast.ClassDef) and n.name == "UxDataArray"), None)
+    if cls is None:
+        raise _Shape("no class UxDataArray")
+    meth = {}
+    for n in cls.body:
+        if isinstance(n, ast.FunctionDef) and n.name.startswith("topological_"):
+            body = [b for b in n.body if not (isinstance(b, ast.Expr) and isinstance(b.value, ast.Constant))]
+            if not (len(body) == 1 and isinstance(body[0], ast.Return) and isinstance(body[0].value, ast.Call) and cname(body[0].value) == "_uxda_grid_aggregate"):
+                raise _Shape("body of " + n.name)
+            call = body[0].value
+            a = call.args
+            if not (len(a) == 3 and isinstance(a[0], ast.Name) and a[0].id == "self" and isinstance(a[1], ast.Name) and a[1].id == "destination"
+                    and isinstance(a[2], ast.Constant) and [k.arg for k in call.keywords] == [None]):
+                raise _Shape("forwarding call of " + n.name)
+            if a[2].value not in npmap:
+                raise _Shape(f"{n.name} forwards unknown aggregation {a[2].value!r}")
+            meth[n.name[len("topological_"):]] = npmap[a[2].value]
+    return table, meth
+
+
+def source_correspondence(ctx):
+    """the Lean decision table `dispatch` (theorem agg_rejects) and the reduction enumeration `Red` against the
+    tables regenerated from the source; any difference is a correspondence failure"""
+    import uxarray as ux
+
+    try:
+        table, meth = source_tables(ux)
+    except _Shape as e:
+        ctx.mismatch("C17/source-shape", dict(what=str(e)), None, None)
+        return
+    for (c, dc), got in sorted(table.items()):
+        want = ctx.driver.ask("C17.dispatch", c, dc)
+        ctx.case(("dispatch-source", c, dc), nontrivial=True)
+        ctx.hit("dispatch-from-source:" + got)
+        if got != want:
+            ctx.mismatch("C17/dispatch-table-from-source", dict(centre=DISPATCH[c][0], destination=DESTS[dc][0]), got, want)
+    want = {a: a for a in AGGS}
+    if meth != want:
+        ctx.mismatch("C17/reduction-table-from-source", dict(what="topological_<m> -> np.<f> as written in the source"), meth, want)
+    ctx.hit("reduction-table-from-source", len(meth))
 
 
 def errors(ctx, m):
@@ -172,7 +450,7 @@ def errors(ctx, m):
     import uxarray as ux
 
     g = meshes.to_grid(m, ux)
-    sizes = dict(n_node=m.n_node, n_edge=int(g.n_edge), n_face=m.n_face)
+    sizes = dict(n_node=m.n_node, n_edge=int(g.n_edge), n_face=m.n_face, x=m.n_node + 1)
     for dim, c in DISPATCH:
         for dest, dc in DESTS:
             uxda = ux.UxDataArray(np.arange(sizes[dim], dtype=float), dims=[dim], uxgrid=g, name="v")
@@ -195,10 +473,16 @@ def errors(ctx, m):
 
 
 def run(ctx):
-    ctx.rule = ("meshes from harness/meshes.zoo in random face order × (reduction, destination) × dtype int/float/bool × 0..2 leading "
-                "dims; distinct = distinct (table, reduction, destination, dtype, shape, data); non-trivial = mixed face sizes or edge destination")
-    ctx.assumptions = ["NumPy's reductions are parameters of the model (any `red`); fancy indexing data[..., conn] is tied by the differential run",
-                       "PartsOK is evaluated in Lean on the partitions returned by the real get_face_node_partitions for each generated case"]
+    ctx.rule = ("meshes from harness/meshes.zoo in random face order × (reduction, destination) × dtype int/float(dyadic)/bool/wild float "
+                "(arbitrary mantissas over 7 decades) × 0..2 leading dims × NumPy- or dask-backed source × ddof 0/1 for std/var; sub-grids "
+                "(isel n_face) of every mesh; (centre, destination) decision table on n_node/n_edge/n_face/non-grid dims; distinct = distinct "
+                "(table, reduction, destination, dtype, ddof, shape, data); non-trivial = mixed face sizes or edge destination")
+    ctx.assumptions = ["the ten reductions are modelled exactly over ℚ (Aggregate.core; std by its square); the verdict on every output is Lean's "
+                       "`accepts` = within a float64 rounding allowance derived from the row length and Σ|x| (zero for min/max/all/any); inputs are "
+                       "finite (NaN/inf data are outside the model); NumPy on the element's own nodes is only a cross-check of that model",
+                       "fancy indexing data[..., conn] is tied by the differential run (Lean gathers the rows itself from the table)",
+                       "PartsOK / SortsBy / StdForm / EdgesSound are evaluated in Lean on the real partitions, argsort output, face table and edge table of each generated grid",
+                       "the dispatch table and the method→np.<f> table are regenerated from the source (ast) and compared with the Lean tables"]
     ms = []
     for rep in range(ctx.n(1, 4)):
         ms += meshes.zoo(ctx.rng, big=False)
@@ -206,6 +490,7 @@ def run(ctx):
         judge(ctx, m, m.kind)
     for m in ms[:3] + [meshes.hull(4, ctx.rng)]:
         errors(ctx, m)
+    source_correspondence(ctx)
 
 
 def replay(ctx, rp):
